@@ -345,6 +345,7 @@ const OPS: &[Op] = &[
     Op::Refresh(1, true),
     Op::Refresh(1, false),
     Op::Disable("DPT", "FIN"),
+    Op::Disable("SEC", "TOP"),
     Op::Delete("DPT", "FIN"),
     Op::Delete("SEC", "LOW"),
     Op::AddAttr("DPT", "NEW"),
@@ -359,6 +360,7 @@ fn run_history(seq: &[Op]) -> u64 {
     w.keygen("SEC::TOP && DPT::FIN");
     w.keygen("SEC::LOW && (DPT::FIN || DPT::HR)");
     let mut hist = String::new();
+    let mut disabled: Vec<(&str, &str)> = vec![];
     for p in PROBE_ENCS { w.encaps(p, "setup"); }
     n += w.check("setup");
     for op in seq {
@@ -367,9 +369,21 @@ fn run_history(seq: &[Op]) -> u64 {
             Op::Rekey(p) => { if w.msk.access_structure.ap_to_usk_rights(&ap(p)).is_ok() { w.rekey(p) } }
             Op::Prune(p) => { if w.msk.access_structure.ap_to_usk_rights(&ap(p)).is_ok() { w.prune(p) } }
             Op::Refresh(i, keep) => w.refresh(i, keep, &hist),
-            Op::Disable(d, a) => { if w.msk.access_structure.disable_attribute(&QualifiedAttribute::new(d, a)).is_ok() { w.update() } }
-            Op::Delete(d, a) => { if w.msk.access_structure.del_attribute(&QualifiedAttribute::new(d, a)).is_ok() { w.update() } }
-            Op::AddAttr(d, a) => { if w.msk.access_structure.add_attribute(QualifiedAttribute::new(d, a), EncryptionHint::Classic, None).is_ok() { w.update() } }
+            Op::Disable(d, a) => { if w.msk.access_structure.disable_attribute(&QualifiedAttribute::new(d, a)).is_ok() { disabled.push((d, a)); w.update() } }
+            Op::Delete(d, a) => { if w.msk.access_structure.del_attribute(&QualifiedAttribute::new(d, a)).is_ok() { disabled.retain(|x| *x != (d, a)); w.update() } }
+            Op::AddAttr(d, a) => {
+                if w.msk.access_structure.add_attribute(QualifiedAttribute::new(d, a), EncryptionHint::Classic, None).is_ok() {
+                    // documented refusal: the new attribute would create rights born disabled (an attribute of ANOTHER dimension is disabled)
+                    let other_disabled = disabled.iter().any(|(dd, _)| *dd != d);
+                    if other_disabled {
+                        let r = w.cc.update_msk(&mut w.msk);
+                        vchk!(matches!(r, Err(Error::OperationNotPermitted(_))), "C09/C06: after [{hist}] adding {d}::{a} creates rights born disabled: the update must be refused (OperationNotPermitted)");
+                        w.msk.access_structure.del_attribute(&QualifiedAttribute::new(d, a)).unwrap();
+                    } else {
+                        w.update()
+                    }
+                }
+            }
             Op::Keygen(p) => { if w.msk.access_structure.ap_to_usk_rights(&ap(p)).is_ok() { w.keygen(p) } }
             Op::Roundtrip => w.roundtrip(),
         }
@@ -405,7 +419,7 @@ fn checked_history(seq: &[Op]) -> u64 {
     n
 }
 
-// @obl props=C03,C04,C05,C06,C09,C13 tier=quick fn=api::Covercrypt::refresh_usk shape="all histories of 2 operations out of 15 (rekey / prune / refresh keep|nokeep / disable / delete / add / keygen / serialization round-trip), 2 keys, 7 probe encapsulations after every step, compared with a chain model; real cryptography"
+// @obl props=C03,C04,C05,C06,C09,C13 tier=quick fn=api::Covercrypt::refresh_usk shape="all histories of 2 operations out of 16 (rekey / prune / refresh keep|nokeep / disable / delete / add / keygen / serialization round-trip), 2 keys, 7 probe encapsulations after every step, compared with a chain model; real cryptography"
 #[test]
 fn history__decaps_agrees_with_chain_model_len2() {
     let mut n = 0u64;
@@ -418,7 +432,7 @@ fn history__decaps_agrees_with_chain_model_len2() {
     done();
 }
 
-// @obl props=C03,C04,C05,C06,C09,C13 tier=thorough fn=api::Covercrypt::refresh_usk shape="all histories of 3 operations out of 15, as above"
+// @obl props=C03,C04,C05,C06,C09,C13 tier=thorough fn=api::Covercrypt::refresh_usk shape="all histories of 3 operations out of 16, as above"
 #[test]
 fn history__decaps_agrees_with_chain_model_len3() {
     if std::env::var("VERIF_TIER").map_or(true, |t| t != "thorough") {
